@@ -2,6 +2,7 @@
 mod chunker_l1;
 mod clone_l1;
 mod compress_rt;
+mod huge_l1;
 mod reader_l1;
 mod recreader;
 mod refcodec;
@@ -28,6 +29,7 @@ fn main() {
     match args[1].as_str() {
         "clone-l1" => clone_l1::main(&args[2..]),
         "reader-l1" => reader_l1::main(&args[2..]),
+        "huge-l1" => huge_l1::main(&args[2..]),
         "chunker-l1" => chunker_l1::main(&args[2..]),
         "compress-rt" => compress_rt::main(&args[2..]),
         "untrusted" => untrusted::main(&args[2..]),
